@@ -22,7 +22,7 @@ inductive Val where
   | pair (a b : Val)           -- a 2-tuple (`return timestamp, index`)
   deriving Repr, DecidableEq
 
-inductive BinOp where | add | sub | mul | truediv
+inductive BinOp where | add | sub | mul | truediv | pow
   deriving Repr, DecidableEq
 inductive CmpOp where | lt | le | gt | ge | eq | ne
   deriving Repr, DecidableEq
@@ -50,6 +50,7 @@ inductive Expr where
   | isFloat (a : Expr)            -- `isinstance(a, float)`
   | isTd (a : Expr)               -- `isinstance(a, timedelta)`
   | pair (a b : Expr)             -- `a, b`
+  | ifExp (c a b : Expr)          -- `a if c else b`
   deriving Repr, DecidableEq
 
 inductive Stmt where
@@ -104,6 +105,8 @@ def evalBin (op : BinOp) (a b : Val) : M Val :=
   | .truediv, .int x, .int y =>
     if y = 0 then .error (.internal "ZeroDivisionError")
     else .ok (.flt (fls ((x : Rat) / (y : Rat))))                     -- int / int is correctly rounded
+  | .pow, .int x, .int y => if 0 ≤ y then .ok (.int (x ^ y.toNat)) else unsupported "negative exponent"
+  | .pow, _, _ => unsupported "power of a non-int"
   | .add, .td x, .td y => .ok (.td (x + y))
   | .sub, .td x, .td y => .ok (.td (x - y))
   | op, a, b =>
@@ -115,6 +118,7 @@ def evalBin (op : BinOp) (a b : Val) : M Val :=
         | .sub => .ok (.flt (fls (x - y)))
         | .mul => .ok (.flt (fls (x * y)))
         | .truediv => if y = 0 then .error (.internal "ZeroDivisionError") else .ok (.flt (fls (x / y)))
+        | .pow => unsupported "power of a float"
       | _, _ => unsupported "operand types"
     else unsupported "operand types"
 
@@ -223,6 +227,11 @@ def evalExpr (env : Env) : Expr → M Val
   | .isFloat a => evalExpr env a >>= fun v => .ok (.bool (match v with | .flt _ => true | _ => false))
   | .isTd a => evalExpr env a >>= fun v => .ok (.bool (match v with | .td _ => true | _ => false))
   | .pair a b => evalExpr env a >>= fun va => evalExpr env b >>= fun vb => .ok (.pair va vb)
+  | .ifExp c a b => evalExpr env c >>= fun v =>
+    match v with
+    | .bool true => evalExpr env a
+    | .bool false => evalExpr env b
+    | _ => unsupported "condition"
 
 /-- the assignments of an `if` arm, in order -/
 def evalLets : Env → List (String × Expr) → M Env
@@ -314,5 +323,21 @@ def evalBodyC (call : String → List Val → M Val) (env : Env) : List Stmt →
   | .ret e :: _ => evalExpr env e
   | .raise exc :: _ => .error exc
   | _ :: _ => unsupported "statement form next to calls"
+
+/-- `execBody` next to calls: the environment after guards, assignments and calls -/
+def execBodyC (call : String → List Val → M Val) (env : Env) : List Stmt → M Env
+  | [] => .ok env
+  | .assignCall x f args :: rest => evalArgs env args >>= fun vs => call f vs >>= fun v => execBodyC call ((x, v) :: env) rest
+  | .assign x e :: rest => evalExpr env e >>= fun v => execBodyC call ((x, v) :: env) rest
+  | .ifRaise c exc :: rest => evalExpr env c >>= fun v =>
+    match v with
+    | .bool true => .error exc
+    | .bool false => execBodyC call env rest
+    | _ => .error (.internal "unsupported: condition")
+  | .raise exc :: _ => .error exc
+  | _ :: _ => .ok env
+
+def valueOfC (call : String → List Val → M Val) (env : Env) (stmts : List Stmt) (x : String) : M Val :=
+  execBodyC call env stmts >>= fun e => lookup e x
 
 end Chartparse.Py
